@@ -71,24 +71,28 @@ def from_node(node: Union[NodeTemplate, EdgeTemplate], return_dict: dict, base: 
     """Reformat operator structure into a dictionary that can be saved as YAML template.
     """
 
-    new_dict = {'base': base, 'operators': []}
-
-    # collect operator definitions
+    # collect operator definitions together with the node-specific value updates of each operator
+    operators = {}
     for op, updates in node.operators.items():
-        opkey = from_operator(op=op, updates=updates, return_dict=return_dict)
-        new_dict['operators'].append(opkey)
+        opkey = from_operator(op=op, return_dict=return_dict)
+        operators[opkey] = dict(updates) if updates else {}
+
+    # nodes without operator-specific values keep the plain list form
+    if any(operators.values()):
+        new_dict = {'base': base, 'operators': operators}
+    else:
+        new_dict = {'base': base, 'operators': list(operators)}
 
     # add node information to the return dictionary
     return add_to_dict(node, new_dict, return_dict)
 
 
-def from_operator(op: OperatorTemplate, updates: dict, return_dict: dict, base: str = 'OperatorTemplate') -> str:
+def from_operator(op: OperatorTemplate, return_dict: dict, base: str = 'OperatorTemplate') -> str:
     """Reformat operator template into a dictionary that can be saved as YAML template.
     """
 
-    # collect operator attributes
-    new_dict = {'base': base, 'equations': op.equations, 'variables': op.variables}
-    new_dict['variables'].update(updates)
+    # collect operator attributes (copies: dumping a template must not alter it)
+    new_dict = {'base': base, 'equations': list(op.equations), 'variables': dict(op.variables)}
 
     # add operator definition to the return dictionary
     return add_to_dict(op, new_dict, return_dict)
